@@ -330,6 +330,11 @@ def columnReadingOrder (dir : Dir) (doc : Region) : Res (List Line) := columnOrd
 def rowReadingOrder (dir : Dir) (doc : Region) : Res (List Line) :=
   sortLinesInReadingDirection dir (getLines doc)
 
+/-- `sort_lines_in_reading_order(doc, row_order, reading_direction)`: the public dispatcher — row order
+    iff `row_order is True`, column order otherwise, the reading direction handed on in both cases -/
+def sortLinesInReadingOrder (rowOrder : Bool) (dir : Dir) (doc : Region) : Res (List Line) :=
+  if rowOrder then rowReadingOrder dir doc else columnReadingOrder dir doc
+
 /-! ### `sorted(xs)` with `__lt__`: a reference comparison sort (stable insertion sort) -/
 
 def insertBy {α} (lt : α → α → Bool) (x : α) : List α → List α
